@@ -146,7 +146,7 @@ def worker(args):
 
 def run(ctx):
     server_bin("rel")
-    nprog, nh = (80, 150) if ctx.quick else (1500, 4000)
+    nprog, nh = (240, 400) if ctx.quick else (1500, 4000)
     open_ids = frozenset(f["id"] for f in ctx.open_findings())
     replay_witnesses(ctx)
     for p in pmap(worker, [("%s/%d" % (ctx.seed, i), nprog, nh, open_ids) for i in range(NCPU)]): ctx.merge(p)
